@@ -243,7 +243,7 @@ def run(chk, tier, seed):
                 argv = [dfs] + (["--verbose"] if i % 4 == 0 else []) + ["--file", p] + [a.replace("{DEST}", dest) for a in cmd]
                 o = run_patient(argv, dfs, dfs_nd, 30)
                 e = classify(o, argv, "fluxsem:" + fmt, dict(secs=c["secs"], model_accepts=c["accept"]))
-                if cmd == ["type", "A"] or (cmd == ["cat"] and not c.get("all_cmds")):
+                if cmd == ["cat"]:          # the image as a whole is accepted iff the catalogue can be shown
                     e["extra"]["accepted"] = o.rc == 0
                 evs.append(e)
             os.unlink(p)
